@@ -1,5 +1,5 @@
-(* C11 -- IPv4/IPv6 objects agree with the standard library.  Numeric layer: the derived integer values of IPv4Obj / IPv6Obj (network = addr AND netmask, netmask/hostmask complement, broadcast/last = network + hostmask, bounds, numhosts); gen_* are regenerated from /repo on every run.  Textual layer, IPv4: v4_parse (Model/IPText.v) mirrors the constructor's regex alternatives and ipaddress's validation; every accepted spelling (render4 f a p with any surrounding blanks) parses to (a, p), and whatever parses is in range.  Textual layer, IPv6: v6_parse (Model/IPText6.v) transcribes ipaddress's IPv6 parser and IPv6Obj's input handling; whatever parses is in range (v6_parse_sound), and every uncompressed eight-group text in any hextet spelling (lower/upper case minimal, zero padded: spellings), with or without /len and surrounding blanks, parses to (value_of groups, len) (v6_parse_full); every compressed text hi::lo, either side possibly empty, at most seven groups (v6_parse_compressed) denotes hi ++ zeros ++ lo; a dotted-quad tail after six groups or after hi::lo with at most five groups (v6_parse_embedded_full / _compressed) contributes the low 32 bits (value_of_embedded); 'addr<blanks>len' reads exactly as 'addr/len' (v6_parse_blank_form).  These four shapes are all the spellings ipaddress accepts (scope ids are refused by IPv6Obj); rejection of everything else and the string renderings are decided by the v6text correspondence stream and the differential tie against Python's ipaddress (design/C11.md). *)
-From Coq Require Import ZArith List NArith. Require Import CCP.Lib.Res CCP.Lib.PyStr CCP.Model.IPRef CCP.Model.IPText CCP.Model.IPText6 CCP.gen.GenIP CCP.Proofs.C11Proofs CCP.Proofs.IPTextProofs CCP.Proofs.IPText6Proofs CCP.Proofs.IPText6Compressed CCP.Proofs.IPText6Embedded CCP.Proofs.IPText6Blank. Import ListNotations. Open Scope Z_scope.
+(* C11 -- IPv4/IPv6 objects agree with the standard library.  Numeric layer: the derived integer values of IPv4Obj / IPv6Obj (network = addr AND netmask, netmask/hostmask complement, broadcast/last = network + hostmask, bounds, numhosts); gen_* are regenerated from /repo on every run.  Textual layer, IPv4: v4_parse (Model/IPText.v) mirrors the constructor's regex alternatives and ipaddress's validation; every accepted spelling (render4 f a p with any surrounding blanks) parses to (a, p), and whatever parses is in range.  Textual layer, IPv6: v6_parse (Model/IPText6.v) transcribes ipaddress's IPv6 parser and IPv6Obj's input handling; whatever parses is in range (v6_parse_sound), and every uncompressed eight-group text in any hextet spelling (lower/upper case minimal, zero padded: spellings), with or without /len and surrounding blanks, parses to (value_of groups, len) (v6_parse_full); every compressed text hi::lo, either side possibly empty, at most seven groups (v6_parse_compressed) denotes hi ++ zeros ++ lo; a dotted-quad tail after six groups or after hi::lo with at most five groups (v6_parse_embedded_full / _compressed) contributes the low 32 bits (value_of_embedded); 'addr<blanks>len' reads exactly as 'addr/len' (v6_parse_blank_form).  Rejection side: an accepted address text consists of hexadecimal digits, ':' and '.' only, so one foreign character anywhere makes the parse fail (v6_addr_alphabet, v6_addr_rejects_foreign).  These four shapes are all the spellings ipaddress accepts (scope ids are refused by IPv6Obj); rejection of everything else and the string renderings are decided by the v6text correspondence stream and the differential tie against Python's ipaddress (design/C11.md). *)
+From Coq Require Import ZArith List NArith. Require Import CCP.Lib.Res CCP.Lib.PyStr CCP.Model.IPRef CCP.Model.IPText CCP.Model.IPText6 CCP.gen.GenIP CCP.Proofs.C11Proofs CCP.Proofs.IPTextProofs CCP.Proofs.IPText6Proofs CCP.Proofs.IPText6Compressed CCP.Proofs.IPText6Embedded CCP.Proofs.IPText6Blank CCP.Proofs.IPText6Alphabet. Import ListNotations. Open Scope Z_scope.
 
 Theorem C11_v6_network_is_and :
   forall o, wf 128 o -> netw 128 o = Z.land (addr o) (netmask 128 o).
@@ -130,3 +130,13 @@ Theorem C11_v6_parse_blank_form :
   forall t pad d pre post, nospace t -> t <> [] -> nospace d -> d <> [] -> forallb is_space pad = true -> pad <> [] -> forallb is_space pre = true -> forallb is_space post = true -> v6_parse (pre ++ (t ++ pad ++ d) ++ post) = v6_parse (t ++ [c_slash] ++ d).
 Proof. exact v6_parse_blank_form. Qed.
 Print Assumptions C11_v6_parse_blank_form.
+
+Theorem C11_v6_addr_alphabet :
+  forall a v, v6_addr a = Some v -> forallb addr_char a = true.
+Proof. exact v6_addr_alphabet. Qed.
+Print Assumptions C11_v6_addr_alphabet.
+
+Theorem C11_v6_addr_rejects_foreign :
+  forall a c, In c a -> addr_char c = false -> v6_addr a = None.
+Proof. exact v6_addr_rejects_foreign. Qed.
+Print Assumptions C11_v6_addr_rejects_foreign.
